@@ -54,3 +54,7 @@ add("C09", "other",
     "Bounded SMT: subtraction/borrow, div-mod (with the b=0 convention), integer sqrt bounds, equality with every constant, plus-one, if-then-else and pairwise gadgets are run for enumerated widths/options/hosts and z3 decides each bit-vector specification for all operand values; outputs marked iff asked, fresh gates only, old gates unchanged per instance.",
     "Trusted: CPython, z3, proxies. Bounded: sub<=10 bits (+spot 128), div_mod n<=9/12, sqrt n<=16/24, equality n<=6/8, plus_one <=6/10. Negative constants and width 0 outside.",
     "bounded SMT (bit-vector specifications over real evaluator terms)", "DESIGN.md §3 C09")
+add("C06", "other",
+    "Bounded SMT over a fully symbolic candidate circuit: the clauses of the real encoder (after the real fix_gate/forbid_wire calls) are bridged to z3 under the real variable names and two validity queries per configuration show that the CNF's models are exactly the circuits admissible under a reference specification; find_circuit (plain and time-limited) is compared with z3's verdict and the decoder is driven with several distinct models.",
+    "Trusted: CPython, z3, the reference specification in checks/c06.py, SAT stub (z3). Bounded: n<=3, <=2 outputs, r<=4, named bases + 7 custom, don't-cares exhaustive for n<=2/1 output, constraints <=2 per configuration. circuit_db shortcut excluded by the property.",
+    "bounded SMT over symbolic netlist: CNF of real encoder == reference specification (A/B validity queries)", "DESIGN.md §3 C06")
